@@ -51,6 +51,42 @@ struct c10_session : public vsim_session {
       cvm::clear_error();
       return true;
     }
+    if (cmd == "putfile") {
+      // putfile NAME text...   ("\n" in the text = line break): (re)write an auxiliary input file between configurations
+      std::string rest;
+      for (size_t i = 1; i < a.size(); i++) rest += (i > 1 ? " " : "") + a[i];
+      std::string txt;
+      for (size_t i = 0; i < rest.size(); i++) {
+        if (rest[i] == '\\' && i + 1 < rest.size() && rest[i + 1] == 'n') { txt += '\n'; i++; } else txt += rest[i];
+      }
+      std::ofstream f(a[0].c_str());
+      f << txt << "\n";
+      return true;
+    }
+    if (cmd == "globals") {
+      // module-level state other than the object lists: the values set by module-level keywords, the index-group
+      // registry (a NULL entry is printed as such, not dereferenced) and the names of the registered named atom groups
+      colvarmodule *cv = proxy->colvars;
+      o << "GLOBALS trajfreq=" << cvm::cv_traj_freq << " restartfreq=" << cvm::restart_out_freq
+        << " scriptedforces=" << (cvm::use_scripted_forces ? 1 : 0) << " scriptingafter=" << (cvm::scripting_after_biases ? 1 : 0)
+        << " smp=" << int(proxy->get_smp_mode()) << " units=" << proxy->units << "\n";
+      o << "GROUPS";
+      for (size_t i = 0; i < cv->index_group_names.size(); i++) {
+        o << " " << cv->index_group_names[i] << "=";
+        if (i >= cv->index_groups.size()) { o << "MISSING"; continue; }
+        if (cv->index_groups[i] == NULL) { o << "NULL"; continue; }
+        for (size_t j = 0; j < cv->index_groups[i]->size(); j++) o << (j ? "," : "") << (*(cv->index_groups[i]))[j];
+        if (cv->index_groups[i]->size() == 0) o << "empty";
+      }
+      o << " files=" << cv->index_file_names.size() << "\n";
+      o << "ACTIVE";
+      for (colvar *c : *(cv->variables())) if (c->is_enabled()) o << " " << c->name;
+      o << "\n";
+      o << "NAMED";
+      for (size_t i = 0; i < a.size(); i++) o << " " << a[i] << "=" << (cvm::atom_group_by_name(a[i]) != NULL ? 1 : 0);
+      o << "\n";
+      return true;
+    }
     if (cmd == "frame") {
       std::ifstream f(a[0].c_str());
       int k = atoi(a[1].c_str());
